@@ -208,7 +208,7 @@ Example bridge_here :
                    (C01.A.nm "u", ArgData.JObj [(ArgData.n_typename, ArgData.JStr (C01.A.nm "P"))]) ])) /\
     r_rounds r = 2%nat /\ List.length (r_errors r) = 2%nat.
 Proof.
-  destruct (schedule_yields_reference_data ex_code C01.A.ex_schema C01.A.ex_doc C01.A.ex_env C01.A.ex_fuel C01.A.ex_fuel
+  destruct (schedule_yields_reference_response ex_code C01.A.ex_schema C01.A.ex_doc C01.A.ex_env C01.A.ex_fuel C01.A.ex_fuel
               C01.A.ex_W _ _ Query bridged_async (sigma_ranks [1; 0]%nat) 2 6
               (proj1 (proj2 C01.A.hypotheses_hold)) (proj2 (proj2 C01.A.hypotheses_hold)) (proj1 C01.A.hypotheses_hold)
               C01.A.response bridged_same (sigma_ranks_fair _)) as (r & E & D1 & _ & _).
